@@ -19,7 +19,7 @@ pub enum Mode {
     /// C05: nothing is dropped; the replies arrive as one byte stream cut at seeded positions, so
     /// that several complete replies can arrive in one delivery
     Coalesced,
-    /// C10: request #0 is large (70-400 KiB); the peer must receive every request complete,
+    /// C10: request #0 is large (70-260 KiB); the peer must receive every request complete,
     /// well-formed and exactly once
     BigRequest,
 }
@@ -99,7 +99,7 @@ pub fn run_mode(ctx: &mut Ctx, mode: Mode) -> Verdict {
     steps.push(Step::WaitClientMessages(2 + n));
     steps.push(Step::Chunk(reply_msg(n + 1, 130)));
     steps.push(Step::SleepMs(2));
-    let big_request = if mode == Mode::BigRequest { 70_000 + ctx.pick(330_000) } else { 0 };
+    let big_request = if mode == Mode::BigRequest { 70_000 + ctx.pick(190_000) } else { 0 };
     let label = format!("{mode:?} (request #0 carries {big_request} extra bytes): {n} requests, delivery order {order:?}, {} chunks {:?}, drops (before chunk, request) {drops:?}", chunks.len(), chunks.iter().map(Vec::len).collect::<Vec<_>>());
     let sc = Scenario { kind, steps, requests: n, extra_request: true, label, bad_credentials: false, password: crate::rsim::SSH_PASSWORD.to_string(), big_request };
     ev!(ctx, "scenario {}/{}", kind.name(), sc.label);
